@@ -13,5 +13,8 @@ open Emboss.Types
 #print axioms C13_constant_attr_mentions_no_field
 #print axioms C13_module_accepted_iff_partial
 #print axioms C13_total_partial
+#print axioms C13_total_natural_partial
+#print axioms C13_total_natural
 #print axioms C13_total_counterexample
+#print axioms C13_module_errors_located
 #print axioms C13_reported_errors_visible
